@@ -39,6 +39,17 @@ class PyDev:
                 return rq + bytes([tb]) + g + b'\0' + nm + b'\0'
         return None
 
+    def reply_fw(self, dev_ver, rq):
+        """what a firmware of protocol version dev_ver answers: the legacy (8-bit) table commands are answered by every
+        firmware, with the count capped at 255; the V2 commands only by versions >= 4"""
+        rq = bytes(rq)
+        if rq[:1] in (b'\x00', b'\x01'):
+            capped = PyDev(self.items[:255], self.crc, self.extra)
+            return capped.reply(False, rq)
+        if dev_ver >= 4:
+            return self.reply(True, rq)
+        return None
+
     def ext_reply(self, rq):
         """MISC channel: GET_EXTENDED_TYPE (cmd 2, id16) -> cmd, id16, extended type byte."""
         rq = bytes(rq)
